@@ -166,21 +166,18 @@ def token_problems(data, lines):
 
 
 # ----------------------------------------------------------------------------- running histories
-class Session:
-    """the history server + the bookkeeping the oracle needs"""
+def alnum_of(texts):
+    """the non-ASCII scalars of the texts that are alphanumeric (the model takes char::is_alphanumeric outside ASCII as a
+    parameter); the generators only use characters on which Python's str.isalnum and Rust's char::is_alphanumeric agree"""
+    return sorted({ord(c) for t in texts for c in t if ord(c) > 127 and c.isalnum()})
 
-    def __init__(self, mos, hist, workdir):
-        self.mos, self.hist, self.workdir = mos, hist, workdir
-        self.srv = LspServer(mos, disk=hist["disk"], workdir=workdir)
-        self.buffers = {}
 
-    def overlay(self):
-        o = dict(self.hist["disk"])
-        o.update(self.buffers)
-        return o
+def T(s):
+    return [ord(c) for c in s]
 
-    def close(self):
-        self.srv.kill()
+
+def clamp(v):
+    return min(int(v), 5000)        # the model's nat; every text of the generators is shorter, so nothing changes
 
 
 def fresh_server(mos, overlay, workdir):
@@ -215,60 +212,107 @@ def multi_def_position(fresh, ev):
 
 class Outcome:
     def __init__(self):
-        self.failures = []      # (kind, what, event index)
         self.requests = 0
         self.nontrivial = 0
         self.diag_checks = 0
         self.diag_nontrivial = 0
+        self.distinct = set()
         self.dist = {}
+        self.tie = []           # (item, detail, replay)
 
     def bump(self, k, n=1):
         self.dist[k] = self.dist.get(k, 0) + n
 
 
-def check_history(mos, hist, workdir, out, compare_every_prefix=True, stop_at_first=True):
-    """runs the history against the real server and evaluates the three oracles; returns the list of failures
-    [(kind, what, index of the event after which it was observed)]"""
-    ses = Session(mos, hist, workdir)
-    srv = ses.srv
+KIND = {"textDocument/prepareRename": "prepare", "textDocument/completion": "completion", "textDocument/rename": "rename",
+        "textDocument/codeLens": "codelens"}
+
+
+def check_history(mos, hist, workdir, out, model=None, stop_at_first=True):
+    """runs the history against the real server; evaluates the oracles (liveness, history-vs-fresh, well-formedness) and, if a
+    model process is given, the correspondence with model/Lsp.v.  returns [(kind, what, index of the event)]"""
+    names = sorted({n for n in list(hist["disk"]) + [e["file"] for e in hist["events"]] + [ENTRY] if is_file_name(n)})
+    srv = LspServer(mos, disk=hist["disk"], workdir=workdir)
+    buffers = {}
     fails = []
+    analyses = {}        # overlay key -> {"id", "tree", "diags"}
+    observed = []        # per event: None | {"shown":…, "reply": Reply, "key":…}
+    notified = False
+
+    def overlay():
+        o = dict(hist["disk"])
+        o.update(buffers)
+        return o
+
+    def key_of(ov):
+        return tuple(ov.get(n) for n in names)
+
+    def learn(ov, fr):
+        """what the analysis of this overlay is, as the fresh server shows it: files of the tree (publication order), diagnostics"""
+        k = key_of(ov)
+        if k not in analyses:
+            tree = []
+            for uri, _ in fr.diag_log:
+                n = fr.name_of(uri)
+                if n not in tree:
+                    tree.append(n)
+            analyses[k] = {"id": len(analyses), "tree": tree, "diags": canon_diags(fr.diagnostics_by_name(), fr.dir)}
+        return analyses[k]
+
     try:
+        fr = fresh_server(mos, overlay(), workdir)
+        try:
+            if fr.barrier().ok:
+                learn(overlay(), fr)
+        finally:
+            fr.kill()
         for idx, ev in enumerate(hist["events"]):
             kind = ev["ev"]
             out.bump("ev_" + kind)
+            obs = {"reply": None}
             if kind in ("open", "change"):
                 (srv.did_open if kind == "open" else srv.did_change)(ev["file"], ev["text"])
                 if is_file_name(ev["file"]):
-                    ses.buffers[ev["file"]] = ev["text"]
+                    buffers[ev["file"]] = ev["text"]
+                    notified = True
             elif kind == "close":
                 srv.did_close(ev["file"])
-                ses.buffers.pop(ev["file"], None)
+                if is_file_name(ev["file"]):
+                    buffers.pop(ev["file"], None)
+                    notified = True
+            ov = overlay()
             if kind != "req":
-                if not compare_every_prefix and idx != len(hist["events"]) - 1:
-                    continue
                 b = srv.barrier()
                 if not b.ok:
                     fails.append(("liveness", "the server %s while handling %s of %s: %s" % (
-                        "died" if b.kind == "died" else "stopped answering", kind, ev["file"], b.stderr[-300:].strip()), idx))
+                        "died" if b.kind == "died" else "stopped answering", kind, ev["file"],
+                        " ".join(b.stderr.split("panicked at")[-1].split())[:300]), idx))
                     break
-                fr = fresh_server(mos, ses.overlay(), workdir)
+                fr = fresh_server(mos, ov, workdir)
                 try:
                     fb = fr.barrier()
                     if not fb.ok:
                         fails.append(("liveness", "a fresh server given the buffers %s: %s" % (fb.kind, fb.stderr[-300:].strip()), idx))
                         break
+                    learn(ov, fr)
                     dh = canon_diags(srv.diagnostics_by_name(), srv.dir)
                     df = canon_diags(fr.diagnostics_by_name(), fr.dir)
-                    out.diag_checks += 1
-                    if dh or df:
-                        out.diag_nontrivial += 1
-                    if dh != df:
-                        names = sorted(n for n in set(dh) | set(df) if dh.get(n) != df.get(n))
-                        fails.append(("diagnostics", "after %s of %s the diagnostics last published for %s are %s; a fresh server "
-                                      "given the same buffers publishes %s" % (kind, ev["file"], names, {n: dh.get(n, []) for n in names},
-                                                                               {n: df.get(n, []) for n in names}), idx))
+                    if notified:     # a server that has been told nothing has published nothing (spec: `notified`)
+                        out.diag_checks += 1
+                        sig = ("diag", key_of(ov))
+                        if (dh or df) and sig not in out.distinct:
+                            out.distinct.add(sig)
+                            out.diag_nontrivial += 1
+                        if dh != df:
+                            nm = sorted(n for n in set(dh) | set(df) if dh.get(n) != df.get(n))
+                            fails.append(("diagnostics", "after %s of %s the diagnostics last published for %s are %s; a fresh server "
+                                          "given the same buffers publishes %s" % (kind, ev["file"], nm, {n: dh.get(n, []) for n in nm},
+                                                                                   {n: df.get(n, []) for n in nm}), idx))
                 finally:
                     fr.kill()
+                obs["shown"] = {srv.name_of(u): canon_diags({"x": d}, srv.dir).get("x", []) for u, d in srv.diagnostics.items()}
+                obs["key"] = key_of(ov)
+                observed.append(obs)
                 if fails and stop_at_first:
                     break
                 continue
@@ -276,20 +320,28 @@ def check_history(mos, hist, workdir, out, compare_every_prefix=True, stop_at_fi
             out.requests += 1
             out.bump("req_" + ev["method"].split("/")[-1])
             out.bump("pos_" + ev["cls"])
+            if not is_file_name(ev["file"]):
+                out.bump("doc_non_file_uri")
+            elif ev["file"] not in ov:
+                out.bump("doc_not_existing")
             rh = send_request(srv, ev)
             if not rh.ok:
                 fails.append(("liveness", "%s at %s %d:%d (%s) got no response: server %s: %s" % (
                     ev["method"], ev["file"], ev["line"], ev["ch"], ev["cls"], rh.kind,
                     " ".join(rh.stderr.split("panicked at")[-1].split())[:300]), idx))
                 break
-            ov = ses.overlay()
             fr = fresh_server(mos, ov, workdir)
             try:
                 rf = send_request(fr, ev)
+                learn(ov, fr)
                 ch, cf = canon_reply(ev["method"], rh, srv.dir), canon_reply(ev["method"], rf, fr.dir)
                 nontriv = ev["cls"] in OUT_OF_RANGE or (rh.kind == "result" and rh.value not in (None, [], {}))
-                if nontriv:
+                sig = ("req", key_of(ov), ev["method"], ev["file"], ev["line"], ev["ch"])
+                if nontriv and sig not in out.distinct:
+                    out.distinct.add(sig)
                     out.nontrivial += 1
+                    if ev["cls"] in OUT_OF_RANGE:
+                        out.bump("out_of_range_requests")
                 if ch != cf:
                     if ev["method"] in FIRST_BASED and rf.ok and multi_def_position(fr, ev):
                         out.bump("skipped_multi_definition_position")
@@ -312,11 +364,213 @@ def check_history(mos, hist, workdir, out, compare_every_prefix=True, stop_at_fi
                             fails.append(("tokens", p, idx))
             finally:
                 fr.kill()
+            obs["reply"] = rh
+            obs["key"] = key_of(ov)
+            obs["shown"] = observed[-1]["shown"] if observed else {}
+            observed.append(obs)
             if fails and stop_at_first:
                 break
     finally:
-        ses.close()
+        srv.kill()
+    if model is not None and not any(f[0] == "liveness" for f in fails):
+        correspond_history(model, hist, names, analyses, observed, out)
     return fails
+
+
+def correspond_history(model, hist, names, analyses, observed, out):
+    """model/Lsp.v run on the same history over a symbolic analysis (one id per distinct overlay, its tree files as the fresh
+    server published them): after every event the set of files ever published and the list last published for each, and
+    for every request what produced the answer, must be what the real server showed"""
+    by_id = sorted(analyses.items(), key=lambda kv: kv[1]["id"])
+    texts = [t for k, _ in by_id for t in k if t is not None]
+    idx_of = {n: i for i, n in enumerate(names)}
+    evs, rename_some = [], []
+    for i, e in enumerate(hist["events"][:len(observed)]):
+        path = idx_of.get(e["file"]) if is_file_name(e["file"]) else None
+        if e["ev"] in ("open", "change"):
+            evs.append({"ev": e["ev"], "path": path, "text": T(e["text"])})
+        elif e["ev"] == "close":
+            evs.append({"ev": "close", "path": path})
+        else:
+            if e["method"] == "workspace/symbol":
+                path = idx_of[ENTRY]
+            r = observed[i]["reply"]
+            rename_some.append(bool(e["method"] == "textDocument/rename" and r.kind == "result" and r.value is not None))
+            evs.append({"ev": "req", "kind": KIND.get(e["method"], "other"), "path": path, "line": clamp(e["line"]),
+                        "col": clamp(e["ch"]), "rid": len(rename_some) - 1})
+    req = {"cmd": "run", "npaths": len(names), "disk": [T(hist["disk"][n]) if n in hist["disk"] else None for n in names],
+           "analyses": [{"key": [None if t is None else T(t) for t in k], "tree": [idx_of[n] for n in a["tree"] if n in idx_of]}
+                        for k, a in by_id],
+           "alnum": alnum_of(texts), "rename_some": rename_some, "events": evs}
+    m = model.call(req)
+    replay = {"history": {"disk": hist["disk"], "events": hist["events"][:len(observed)]}}
+    if "states" not in m or "panic_at" in m:
+        out.tie.append(("correspondence:bookkeeping", "the model does not complete the history the real server survived: %s" % str(m)[:300], replay))
+        return
+    diag_by_id = {a["id"]: a["diags"] for _, a in by_id}
+    for i, (st, obs) in enumerate(zip(m["states"], observed)):
+        e = hist["events"][i]
+        cur = analyses[obs["key"]]["id"]
+        if st["ana"] != cur:
+            out.tie.append(("correspondence:bookkeeping", "after event %d the model's analysis is that of overlay %d, the buffers are overlay %d"
+                            % (i, st["ana"], cur), replay))
+            return
+        want = {}
+        for p, ds in st["shown"]:
+            want[names[p]] = [] if not ds else diag_by_id[ds[0][0]].get(names[ds[0][1]], [])
+        if want != obs["shown"]:
+            out.tie.append(("correspondence:publish_diagnostics", "after event %d (%s %s) the client has %s, the model predicts %s"
+                            % (i, e["ev"], e.get("file"), obs["shown"], want), replay))
+            return
+        if e["ev"] == "req":
+            last, r = st["last"], obs["reply"]
+            out.bump("model_predictions")
+            if last == "null" and not (r.kind == "result" and r.value is None):
+                out.tie.append(("correspondence:handle_request", "event %d %s %s %d:%d: the model answers null, the server %s"
+                                % (i, e["method"], e["file"], e["line"], e["ch"], json.dumps(r.canon())[:200]), replay))
+                return
+            if last and last != "null" and int(last.split(":")[1]) != cur:
+                out.tie.append(("correspondence:handle_request", "event %d: the model answers from overlay %s, current is %d" % (i, last, cur), replay))
+                return
+            if e["method"] == "textDocument/prepareRename" and r.kind == "result" and r.value is not None:
+                rg = r.value.get("range", r.value)
+                got = (rg["start"]["line"], rg["start"]["character"], rg["end"]["line"], rg["end"]["character"])
+                if not last.startswith("P:"):
+                    out.tie.append(("correspondence:prepare_rename", "event %d: the server answers %s, the model %s" % (i, got, last), replay))
+                    return
+                _, _, s_, e_ = last.split(":")
+                if got != (e["line"], int(s_), e["line"], int(e_)):
+                    out.tie.append(("correspondence:prepare_rename", "event %d prepareRename %s %d:%d: the server answers %s, the model %s"
+                                    % (i, e["file"], e["line"], e["ch"], got, last), replay))
+                    return
+
+
+# ----------------------------------------------------------------------------- correspondence of the concrete helpers
+JUNK = ["", "é", "€€", "\U0001F600", "a\u00e9b", "\r", "x\r", "  ", "lda #1", "foo.bar.", "/*€*/ a.b", "日本語: nop", "²x", "_a1"]
+
+
+def gen_lines(rng):
+    n = rng.randrange(0, 6)
+    lines = [rng.choice(JUNK + g_hist.MAIN_LINES) for _ in range(n)]
+    eol = rng.choice(["\n", "\n", "\n", "\r\n"])
+    t = eol.join(lines)
+    if rng.random() < 0.5:
+        t += eol
+    return t
+
+
+def boundaries(text):
+    out, off = [0], 0
+    for c in text:
+        off += len(c.encode("utf-8"))
+        out.append(off)
+    return out
+
+
+def correspond_codemap(rng, probe, model, n, out):
+    for _ in range(n):
+        t = gen_lines(rng)
+        blen = len(t.encode("utf-8"))
+        nl = t.count("\n") + 1
+        q = {"lines": list(range(0, nl + 3)), "positions": list(range(0, blen + 3))}
+        r = probe.call(dict(q, cmd="c14_codemap", text=t))
+        m = model.call(dict(q, cmd="codemap", text=T(t)))
+        if "num_lines" not in r or "num_lines" not in m:
+            out.tie.append(("correspondence:code_map", "probe or model failed: %s / %s" % (str(r)[:200], str(m)[:200]), {"text": t}))
+            continue
+        m2 = {"num_lines": m["num_lines"], "find_line_col": m["find_line_col"],
+              "source_line": [({"ok": "".join(chr(c) for c in x["ok"])} if "ok" in x else x) for x in m["source_line"]]}
+        r2 = {k: r[k] for k in m2}
+        out.bump("codemap_cases")
+        out.bump("codemap_items", len(q["lines"]) + len(q["positions"]))
+        out.bump("codemap_panics", sum(1 for x in r["source_line"] + r["find_line_col"] if "panic" in x))
+        sig = ("codemap", t)
+        if sig not in out.distinct and blen:
+            out.distinct.add(sig)
+            out.nontrivial += 1
+        if m2 != r2:
+            out.tie.append(("correspondence:code_map", "source_line / find_line_col differ: impl %s model %s" % (
+                json.dumps(r2)[:300], json.dumps(m2)[:300]), {"text": t, "impl": r2, "model": m2}))
+
+
+def correspond_deltas(rng, probe, model, n, out):
+    for _ in range(n):
+        t = gen_lines(rng)
+        bs = boundaries(t)
+        spans = []
+        for _ in range(rng.randrange(0, 7)):
+            a = rng.choice(bs)
+            b = rng.choice([x for x in bs if x >= a][:rng.choice([1, 4, 12, 40])])
+            spans.append([a, b, rng.randrange(0, 6)])
+        r = probe.call({"cmd": "c14_deltas", "text": t, "spans": spans})
+        cm = model.call({"cmd": "codemap", "text": T(t), "lines": list(range(t.count("\n") + 1)),
+                         "positions": sorted({x for s in spans for x in s[:2]})})
+        if "data" not in r or "find_line_col" not in cm:
+            out.tie.append(("correspondence:to_deltas", "probe or model failed: %s / %s" % (str(r)[:200], str(cm)[:200]), {"text": t, "spans": spans}))
+            continue
+        lc = dict(zip(sorted({x for s in spans for x in s[:2]}), cm["find_line_col"]))
+        toks = [lc[a]["ok"] + lc[b]["ok"] + [ty] for a, b, ty in spans]
+        line_chars = [len(x["ok"]) for x in cm["source_line"]]
+        m = model.call({"cmd": "deltas", "line_chars": line_chars, "toks": toks})
+        impl = [[d[0], d[1], d[2], d[3]] for d in r["data"]]
+        mod = None if "ok" not in m else [[d[0], d[1], d[2], r["type_map"][d[3]]] for d in m["ok"]]
+        out.bump("deltas_cases")
+        multi = sum(1 for k in toks if k[0] != k[2])
+        out.bump("deltas_multiline_spans", multi)
+        sig = ("deltas", t, json.dumps(spans))
+        if spans and sig not in out.distinct:
+            out.distinct.add(sig)
+            out.nontrivial += 1
+        if impl != mod:
+            out.tie.append(("correspondence:to_deltas", "to_deltas differs: impl %s model %s" % (impl, mod),
+                            {"text": t, "spans": spans, "impl": impl, "model": mod}))
+        # the spec on the implementation's output
+        for p in token_problems([x for d in r["data"] for x in d], None):
+            if "overlap" in p and any(not (s1[1] <= s2[0] or s2[1] <= s1[0]) for i1, s1 in enumerate(spans) for s2 in spans[i1 + 1:]):
+                continue       # overlapping input spans: only sortedness / non-zero length is promised
+            out.tie.append(("oracle:to_deltas", p, {"text": t, "spans": spans, "impl": impl}))
+
+
+def positions_grid(rng, mos, model, workdir, n, out, fails):
+    """prepareRename / completion at every column of every line (and beyond) of one document: liveness on the real server, and
+    the range computed by the model whenever the server answers one"""
+    for _ in range(n):
+        t = g_hist.gen_text(rng, ENTRY, broken=False) + rng.choice(["", "/*€*/ lda start\n", "lda data.\n", "é: nop\nlda é\n"])
+        lines = g_hist.split_lines(t)
+        grid = [(l, c) for l in range(len(lines) + 2) for c in range(0, len(lines[l].encode("utf-8")) + 3 if l < len(lines) else 2)]
+        rng.shuffle(grid)
+        grid = grid[:60]
+        m = model.call({"cmd": "positions", "text": T(t), "alnum": alnum_of([t]), "positions": [{"line": l, "col": c} for l, c in grid]})
+        with LspServer(mos, workdir=workdir) as s:
+            s.did_open(ENTRY, t)
+            for (l, c), mr in zip(grid, m.get("results", [])):
+                for method in ("textDocument/prepareRename", "textDocument/completion"):
+                    r = s.request(method, make_params(s, method, ENTRY, l, c))
+                    out.requests += 1
+                    out.bump("grid_requests")
+                    if not r.ok:
+                        fails.append(("liveness", "%s at %d:%d got no response: server %s: %s" % (
+                            method, l, c, r.kind, " ".join(r.stderr.split("panicked at")[-1].split())[:300]),
+                            {"disk": {}, "events": [{"ev": "open", "file": ENTRY, "text": t},
+                                                    {"ev": "req", "method": method, "file": ENTRY, "line": l, "ch": c, "cls": "grid"}]}))
+                        return
+                    if method.endswith("prepareRename"):
+                        if "panic" in mr["prepare"]:
+                            out.tie.append(("correspondence:prepare_rename", "the model panics at %d:%d, the server answers" % (l, c), {"text": t}))
+                        elif r.value is not None:
+                            rg = r.value.get("range", r.value)
+                            got = [rg["start"]["character"], rg["end"]["character"]]
+                            out.bump("grid_prepare_ranges")
+                            if mr["prepare"]["ok"] != got or rg["start"]["line"] != l:
+                                out.tie.append(("correspondence:prepare_rename", "at %d:%d the server answers %s, the model %s" % (l, c, got, mr["prepare"]), {"text": t}))
+                            for p in range_problems(rg, line_table(t), "prepareRename range"):
+                                fails.append(("range", p, {"disk": {}, "events": [{"ev": "open", "file": ENTRY, "text": t}, {"ev": "req", "method": method, "file": ENTRY, "line": l, "ch": c, "cls": "grid"}]}))
+                        elif mr["prepare"].get("ok") is None:
+                            out.bump("grid_prepare_null_agreed")
+        sig = ("grid", t)
+        if sig not in out.distinct:
+            out.distinct.add(sig)
+            out.nontrivial += 1
 
 
 # ----------------------------------------------------------------------------- corpus
@@ -336,7 +590,7 @@ def shrink(mos, hist, workdir, kind):
     """drop events while a failure of the same kind remains (greedy, one pass from the end)"""
     ev = list(hist["events"])
     i = len(ev) - 2
-    budget = 60
+    budget = 40
     while i >= 0 and budget > 0:
         cand = ev[:i] + ev[i + 1:]
         budget -= 1
@@ -351,29 +605,73 @@ def shrink(mos, hist, workdir, kind):
 def run(chk):
     rng = random.Random(chk.seed)
     thorough = chk.tier == "thorough"
+    chk.proof = common.prove("C14")
     mos = common.build_mos()
+    model = Proc([common.build_model("c14")], timeout=60)
+    probe = Proc([mos, "verif-probe"], timeout=60)
     workdir = os.path.join(common.CACHE, "work")
     os.makedirs(workdir, exist_ok=True)
     out = Outcome()
-    n_hist = 400 if thorough else 45
+    n_hist = 360 if thorough else 40
     hists = load_corpus() + [g_hist.gen_history(rng) for _ in range(n_hist)]
     seen_fail_kinds = {}
+
+    def report(kind, what, hist_for_replay, origin):
+        key = (kind, re.sub(r"\d+", "N", what)[:70])
+        seen_fail_kinds[key] = seen_fail_kinds.get(key, 0) + 1
+        if seen_fail_kinds[key] == 1:
+            chk.oracle_failure(None, "%s: %s" % (kind, what), {"history": hist_for_replay, "kind": kind, "from": origin})
+
     for hi, hist in enumerate(hists):
-        fails = check_history(mos, hist, workdir, out)
-        chk.sample({"history": hist.get("name", "generated-%d" % hi), "events": len(hist["events"]),
-                    "first_events": hist["events"][:3]}, limit=3)
-        for kind, what, idx in fails:
-            key = (kind, what.split(":")[0][:60])
+        origin = hist.get("name", "generated-%d" % hi)
+        fails = check_history(mos, hist, workdir, out, model=model)
+        chk.sample({"history": origin, "events": len(hist["events"]), "first_events": [
+            {k: (v if k != "text" else v[:80]) for k, v in e.items()} for e in hist["events"][:3]]}, limit=3)
+        for kind, what, idx in fails[:3]:
+            key = (kind, re.sub(r"\d+", "N", what)[:70])
             if key in seen_fail_kinds:
                 seen_fail_kinds[key] += 1
                 continue
-            seen_fail_kinds[key] = 1
             small = shrink(mos, {"disk": hist["disk"], "events": hist["events"][:idx + 1]}, workdir, kind)
-            chk.oracle_failure(None, "%s: %s" % (kind, what), {"history": small, "kind": kind, "from": hist.get("name", "generated-%d" % hi)})
-    chk.count(out.requests + out.diag_checks, out.nontrivial + out.diag_nontrivial)
-    chk.cov["rule"] = "histories"
-    chk.extra["distribution"] = dict(out.dist, histories=len(hists), requests=out.requests, diag_checks=out.diag_checks)
-    return chk.finish()
+            report(kind, what, small, origin)
+    gfails = []
+    positions_grid(rng, mos, model, workdir, 12 if thorough else 3, out, gfails)
+    for kind, what, h in gfails:
+        report(kind, what, h, "positions-grid")
+    correspond_codemap(rng, probe, model, 1500 if thorough else 150, out)
+    correspond_deltas(rng, probe, model, 3000 if thorough else 300, out)
+    for item, detail, replay_ in out.tie:
+        chk.tie_break(item, detail, replay_)
+    model.stop()
+    probe.stop()
+    chk.count(out.requests + out.diag_checks + out.dist.get("codemap_items", 0) + out.dist.get("deltas_cases", 0),
+              out.nontrivial + out.diag_nontrivial)
+    chk.cov["rule"] = (
+        "G-hist: corpus/C14 witnesses, then seeded histories of <= 40 events over main.asm + 2 importable files (+ names outside the "
+        "project, non-file uris), files optionally on disk: didOpen / didChange (whole-text replacement and typing sequences that insert "
+        "or delete one character per event) / didClose, interleaved with all 13 registered request types at positions of the classes "
+        "ident, any, eol1, eolfar, eofline, eoffar, inchar, huge, nofile.  After EVERY event the history server is compared with a fresh "
+        "server given only the current buffers (diagnostics per file after notifications; the answer after requests), every returned "
+        "range is checked against the document it names and semantic tokens are decoded.  A case is distinct by (buffer contents, "
+        "request) resp. (buffer contents) and non-trivial when the request is out of range or the answer / a diagnostics list is "
+        "non-empty.  Plus: prepareRename/completion on a grid of all columns (model-predicted ranges), and model-vs-implementation "
+        "runs of source_line / find_line_col on every byte offset and of to_deltas on random span lists through `mos verif-probe`.")
+    chk.extra["distribution"] = dict(out.dist, histories=len(hists), requests=out.requests, diag_checks=out.diag_checks,
+                                     distinct_nontrivial_requests=out.nontrivial, distinct_nontrivial_diag=out.diag_nontrivial)
+    chk.assumptions = [
+        "the analysis (parse + codegen) is abstract in the bookkeeping theorems: a deterministic function of what the parsing source "
+        "returns (world_ok); that the real perform_codegen is one is what the history-vs-fresh oracle tests",
+        "JSON-RPC framing, lsp-server's threads and process exit are runtime: observed over stdio, not modelled",
+        "columns: the server treats `character` as a count of Unicode scalars; well-formedness of returned ranges is checked in UTF-16 "
+        "units (scalars <= UTF-16 units, so containment carries over; exact columns for astral characters are not part of C14)",
+        "char::is_alphanumeric outside ASCII is a parameter of the model, instantiated per case from Python's str.isalnum on the "
+        "characters the generators use",
+        "positions covered by more than one definition (F-C16a) are excluded from the comparison of hover/definition/rename answers",
+    ]
+    return chk.finish(extra_trusted=[
+        "drivers/lsp_client.py (LSP framing, request/response matching), gen/g_hist.py, canonicalisation in checks/c14.py",
+        "hook H2: mos verif-probe commands c14_deltas, c14_codemap (mos/src/verif_c14.rs)",
+        "extract/driver_c14.ml: symbolic instantiation of the abstract analysis (one id per distinct overlay)"])
 
 
 def replay(chk, path):
